@@ -231,6 +231,66 @@ func targets() []*target {
 			params: []string{"(f_rel : bytes -> bytes -> bytes)", "(g_flags : Z)", "(m_knownPathMap : list (bytes * bytes))",
 				"(g_knownPathRegexpMap : list rx)", "(g_cwd : bytes)", "(file : bytes)"},
 			result: "option bytes", final: "None"},
+
+		// ---- the two string escapers (C04 / C05 / C06) ----
+		// None = the call panics or a loop runs out of its declared fuel (the theorems show that neither
+		// happens).  strconv.IsPrint and isInGraphicList are the parameters isprint / f_isInGraphicList;
+		// utf8.DecodeRuneInString, AppendRune, ValidRune are Model/Utf8.v.
+		{pkg: slogPkg, recv: "", fn: "appendEscapedRune", coq: "escape_rune", file: "Escapes", strict: true, auto: true, retTy: "bytes", fallback: "EscRef.escape_rune_ref",
+			comment: "(returns buf; None = panic / out of fuel)", panicT: "None", retfmt: "Some (%s)",
+			tymap: map[string]string{"[]byte": "bytes"}, fuels: []string{"5", "9"},
+			calls: map[string]callSpec{
+				"strconv.IsPrint": {pure: "isprint %0"}, "isInGraphicList": {pure: "f_isInGraphicList %0"},
+				"utf8.AppendRune": {pure: "%0 ++ encode_rune %1"}, "utf8.ValidRune": {pure: "valid_rune %0"},
+			},
+			params: []string{"(isprint f_isInGraphicList : Z -> bool)", "(g_hex : bytes)", "(buf : bytes)", "(r : Z)", "(quote : Z)", "(ASCIIonly graphicOnly : bool)"},
+			result: "option bytes", final: "None"},
+		// the loop consumes width >= 1 bytes of s per round: fuel = len(s) + 1 (the last round sees len(s) = 0)
+		{pkg: slogPkg, recv: "", fn: "appendQuotedWith", coq: "quote_with", file: "Escapes", strict: true, auto: true, retTy: "bytes", fallback: "EscRef.quote_with_ref",
+			comment: "(returns buf; None = panic / out of fuel)", panicT: "None", retfmt: "Some (%s)",
+			tymap: map[string]string{"[]byte": "bytes"}, fuels: []string{"S (List.length s)"},
+			calls: map[string]callSpec{
+				"utf8.DecodeRuneInString": {res: "decode_rune_z %0"},
+				"appendEscapedRune":       {pure: "escape_rune isprint f_isInGraphicList g_hex %0 %1 %2 %3 %4", partial: true},
+			},
+			params: []string{"(isprint f_isInGraphicList : Z -> bool)", "(g_hex : bytes)", "(buf : bytes)", "(s : bytes)", "(quote : Z)", "(ASCIIonly graphicOnly : bool)"},
+			result: "option bytes", final: "None"},
+		// the index i advances by >= 1 per round: fuel = len(val) + 1.  The two local closures are exactly
+		// s.pcAppendByte / s.pcAppendString (checked textually), which append to the buffer: the binder buf
+		{pkg: slogPkg, recv: "PrintCtx", fn: "appendEscapedJSONString", coq: "json_escape", file: "Escapes", strict: true, auto: true, retTy: "bytes", fallback: "EscRef.json_escape_ref",
+			comment: "(returns the buffer; None = panic / out of fuel)", panicT: "None", retfmt: "Some (%s)", effects: []string{"buf"},
+			fuels:    []string{"S (List.length val)"},
+			closures: map[string]string{"char": "func(b byte) { s.pcAppendByte(b) }", "strz": "func(str string) { s.pcAppendString(str) }"},
+			calls: map[string]callSpec{
+				"char": {state: "buf ++ [zb %0]"}, "strz": {state: "buf ++ %0"},
+				"utf8.DecodeRuneInString": {res: "decode_rune_z %0"},
+			},
+			params: []string{"(g_hex : bytes)", "(m_safeSet : list (Z * bool))", "(val : bytes)", "(buf : bytes)"},
+			result: "option bytes", final: "Some (buf)"},
+		// the two callers: which escaper a value / a member name goes through.  pcAppendByte, WriteByte and
+		// WriteString append to s.buf (C19); PreAlloc only reserves capacity; preCheck is empty; checkerr only
+		// reports the error its argument returned
+		{pkg: slogPkg, recv: "PrintCtx", fn: "appendQuotedString", coq: "quoted_string", file: "Escapes", strict: true, auto: true, retTy: "bytes",
+			fallback: "EscRef.quoted_string_ref", comment: "(returns s.buf; None = panic / out of fuel)", panicT: "None", retfmt: "Some (%s)",
+			tymap: map[string]string{"[]byte": "bytes"}, effects: []string{"s_buf"},
+			calls: map[string]callSpec{
+				"*PrintCtx.pcAppendByte":            {state: "s_buf ++ [zb %0]"},
+				"*PrintCtx.appendEscapedJSONString": {state: "json_escape g_hex m_safeSet %0 s_buf", partial: true},
+				"*PrintCtx.PreAlloc":                {ignore: true},
+				"appendQuotedWith":                  {pure: "quote_with isprint f_isInGraphicList g_hex %0 %1 %2 %3 %4", partial: true},
+			},
+			params: []string{"(isprint f_isInGraphicList : Z -> bool)", "(g_hex : bytes)", "(m_safeSet : list (Z * bool))", "(s_jsonMode : bool)", "(s_buf : bytes)", "(str : bytes)"},
+			result: "option bytes", final: "Some (s_buf)"},
+		{pkg: slogPkg, recv: "PrintCtx", fn: "pcAppendStringKey", coq: "string_key", file: "Escapes", strict: true, auto: true, retTy: "bytes",
+			fallback: "EscRef.string_key_ref", comment: "(returns s.buf; None = panic / out of fuel)", panicT: "None", retfmt: "Some (%s)",
+			tymap: map[string]string{"[]byte": "bytes"}, effects: []string{"s_buf"},
+			calls: map[string]callSpec{
+				"*PrintCtx.preCheck": {ignore: true}, "*PrintCtx.checkerr": {unwrap: true},
+				"*PrintCtx.WriteByte": {state: "s_buf ++ [zb %0]"}, "*PrintCtx.WriteString": {state: "s_buf ++ %0"},
+				"*PrintCtx.appendEscapedJSONString": {state: "json_escape g_hex m_safeSet %0 s_buf", partial: true},
+			},
+			params: []string{"(g_hex : bytes)", "(m_safeSet : list (Z * bool))", "(s_jsonMode : bool)", "(s_buf : bytes)", "(str : bytes)"},
+			result: "option bytes", final: "Some (s_buf)"},
 	}
 }
 
@@ -260,6 +320,7 @@ var genFiles = [][2]string{
 	{"Delivery", "Require Import Verif.Model.Base Verif.Model.Decision Verif.Model.GoSem Verif.Model.Writers Verif.Model.GenRef."},
 	{"Assembly", "Require Import Verif.Model.Base Verif.Model.Decision Verif.Model.GoSem Verif.Model.Attrs Verif.Model.Collect Verif.Model.CollectRef."},
 	{"Paths", "Require Import Verif.Model.Base Verif.Model.Decision Verif.Model.GoSem Verif.Model.Path Verif.Model.PathRef."},
+	{"Escapes", "Require Import Verif.Model.Base Verif.Model.Decision Verif.Model.GoSem Verif.Model.Utf8 Verif.Model.EscRef."},
 	{"LevelNames", "Require Import Verif.Model.Base Verif.Model.Decision Verif.Model.Dec Verif.Model.GoSem Verif.Model.LevelRef."},
 }
 
